@@ -396,7 +396,7 @@ Fixpoint run_frames (c : cfg) (partial : bool) (origin : Z) (st : scr * option t
   end.
 
 (* sub-model 1: a whole history.  sub-model 2: the reference terminal alone on a token stream. *)
-Definition run_case (l : list Z) : list Z :=
+Definition run_case_draw (l : list Z) : list Z :=
   match l with
   | 1 :: utf8 :: bce :: bib :: bbb :: partial :: origin :: r =>
       match dec_counted dec_spec r with
